@@ -39,7 +39,15 @@ impl Model for M {
     type State = St;
     type Op = &'static str;
     fn ops(&self, s: &St) -> Vec<&'static str> {
-        if s.n < self.horizon { vec!["add(next position)"] } else { vec![] }
+        // clear() restarts the stream (n = 0): "after n adds" is counted from the last clear
+        let mut v = vec![];
+        if s.n < self.horizon {
+            v.push("add(next position)");
+        }
+        if s.n > 0 {
+            v.push("clear()");
+        }
+        v
     }
     fn key(&self, s: &St) -> Vec<u8> {
         let mut k: Vec<u8> = s.r.reservoir().iter().map(|&p| p as u8).collect();
@@ -50,6 +58,14 @@ impl Model for M {
     }
     fn step(&self, s: &mut St, _op: &&'static str) -> Result<u32, Violation> {
         chooser::set_unit_mode(UnitMode::Alphabet(self.units.clone()));
+        if *_op == "clear()" {
+            s.r.clear();
+            s.n = 0;
+            if !s.r.is_empty() || !s.r.reservoir().is_empty() || s.r.i() != 0 {
+                return Err(Violation { property: "C19".into(), signature: format!("reservoir(k={}) clear", self.k), message: "not empty after clear()".into() });
+            }
+            return Ok(2);
+        }
         let pos = s.n;
         let v = |sig: &str, msg: String| Violation { property: "C18".into(), signature: format!("reservoir(k={}) {}", self.k, sig), message: msg };
         if let Err(p) = mccore::panics::catch(|| s.r.add(pos)) {
@@ -134,7 +150,7 @@ fn main() {
     run.ev.set("exhaustive", json!(closed));
     run.ev.set("real_rand_conformance", json!(std::env::var("VERIF_MCREAL_SUMMARY").unwrap_or_else(|_| "not run (binary invoked without run.sh)".into())));
     run.ev.set("samples", json!([{"k": 2, "adds": 10, "rng_per_add": [[], [], [1], [3], [0], [2], [5], [1], [1, 40], []], "checked": "len = min(n,k), items are distinct stream positions < n, prefix while n <= k, i() = n, is_empty() false"}]));
-    run.ev.set("rule", json!("BFS over (reservoir positions, i, skip_until capped at the horizon) for n up to the horizon; every add is executed once per RNG outcome: every value of every integer draw, unit draws from an 78-value alphabet (extremes 0, 2^-52, 1-2^-52, dyadic points, 64-point grid)"));
+    run.ev.set("rule", json!("BFS over (reservoir positions, i, skip_until capped at the horizon) for n up to the horizon, with clear() as a second operation (restarts the count); every add is executed once per RNG outcome: every value of every integer draw, unit draws from an 78-value alphabet (extremes 0, 2^-52, 1-2^-52, dyadic points, 64-point grid)"));
     run.ev.assume("unit alphabet contains only values the real generator can return (multiples of 2^-52 in [0,1)); raw-word behaviour of the real rand crate is covered by mc-real");
     run.finish();
 }
